@@ -7,7 +7,7 @@
    record: one inode — this contains C09's one_fs). *)
 From Coq Require Import List NArith Lia Bool Sorting.Sorted.
 From FS Require Import Sx Model.Path Model.Stat Model.Tree Model.Walk Model.Diff Model.AbsDest Model.ConvergeA
-  Proofs.Lex Proofs.PathP Proofs.DiffP Proofs.WalkP Proofs.ReceiveP Proofs.ConvergeP.
+  Proofs.Lex Proofs.PathP Proofs.DiffP Proofs.WalkP Proofs.AbsDestP Proofs.ReceiveP Proofs.ConvergeP.
 Import ListNotations.
 Open Scope N_scope.
 Open Scope bool_scope.
@@ -161,11 +161,11 @@ Proof.
   intros sb bb Hin Hl. destruct (walk_entry_node sb bb Hin) as (Hsb & cs & r & Hne & Hat & Ep & Eb).
   destruct (is_hardlink_reg _ Hl) as [Hreg Hln].
   assert (Hd : is_dir r = false).
-  { rewrite <- (walk_is_dir sb cs r Hsb Hne Hat Ep). apply is_reg_not_dir; auto. }
+  { rewrite <- (walk_is_dir sb cs r Hsb Hne Hat Ep). apply is_node_not_dir; auto. }
   destruct (walk_stat_proof t Hwf sb Hsb cs r Hne Hat Ep) as (Em & Eu & Eg & Es & Emt & Ex & Ema & Emi & _).
   assert (Hsym : is_symlink r = false).
   { unfold is_symlink. rewrite <- mode_symlink_nosock, <- Em.
-    unfold AbsDest.is_reg in Hreg. rewrite !andb_true_iff, !negb_true_iff in Hreg. tauto. }
+    unfold is_node in Hreg. rewrite !andb_true_iff, !negb_true_iff in Hreg. tauto. }
   destruct (walk_hardlinks_proof t Hwf coherent_one_fs Hic sb Hsb cs r Hne Hat Ep Hd)
     as (cs0 & r0 & Hne0 & Hat0 & Hd0 & Ei0 & _ & Hleast & Eln).
   rewrite Hsym in Eln.
@@ -191,7 +191,7 @@ Proof.
     exfalso. eapply compare_path_asym; eauto. }
   subst cs00. rewrite bytes_eqb_refl in Eln0.
   exists st0, b0. split; auto. split; [congruence|]. split; [rewrite E0; rewrite Ep; exact Hlt|].
-  split; [rewrite (is_reg_cong st0 sb); auto; congruence|]. split; auto.
+  split; [rewrite (is_node_cong st0 sb); auto; congruence|]. split; auto.
   split; [|congruence].
   unfold link_meta_eq. rewrite Em, Eu, Eg, Es, Emt, Ema, Emi, Ex, Em0, Eu0, Eg0, Es0, Emt0, Ema0, Emi0, Ex0. tauto.
 Qed.
